@@ -35,10 +35,7 @@ func init() {
 
 // ---- bitmaps ----
 
-const (
-	protoMaxBulkLen = 512 << 20 // Redis' default proto-max-bulk-len: the limit of bit offsets, in bytes
-	modelMaxBitmap  = 16 << 20  // larger bitmaps are legal in Redis but refused (and flagged) by the model
-)
+const protoMaxBulkLen = 512 << 20 // Redis' default proto-max-bulk-len: the limit of bit offsets, in bytes
 
 func errBitOffset() resp.Value {
 	return resp.Err("ERR bit offset is not an integer or out of range")
@@ -67,7 +64,8 @@ func parseBitOffset(s string, hash bool, bits int) (uint64, bool) {
 }
 
 // stringForBits is lookupStringForBitCommand: the string at key, created or zero-padded so that bit maxbit exists.
-// dirty reports that the string was created or grew (callers check bitmapTooBig first).
+// dirty reports that the string was created or grew. Long bitmaps are held sparsely (cmd_prob.go), so every offset
+// Redis accepts is within the model's reach.
 func stringForBits(sc *SrvConn, key string, maxbit uint64) (en *entry, dirty, wrongType bool) {
 	d := sc.Node.DBs
 	en = d.get(sc, key)
@@ -76,23 +74,12 @@ func stringForBits(sc *SrvConn, key string, maxbit uint64) (en *entry, dirty, wr
 	}
 	need := int(maxbit>>3) + 1
 	if en == nil {
-		en = &entry{typ: "string", str: string(make([]byte, need))}
+		en = &entry{typ: "string"}
 		d.db(sc.Sess.DB)[key] = en
+		en.growBits(need)
 		return en, true, false
 	}
-	if len(en.str) < need {
-		en.str += string(make([]byte, need-len(en.str)))
-		return en, true, false
-	}
-	return en, false, false
-}
-
-func bitmapTooBig(w *World, what string, maxbit uint64) bool {
-	if maxbit>>3 >= modelMaxBitmap {
-		w.gap("%s needs a bitmap of %d bytes: larger than the model allows", what, maxbit>>3+1)
-		return true
-	}
-	return false
+	return en, en.growBits(need), false
 }
 
 func getBit(s string, off uint64) uint64 {
@@ -103,15 +90,15 @@ func getBit(s string, off uint64) uint64 {
 	return uint64(s[i]>>(7-off&7)) & 1
 }
 
-func getUnsignedBits(s string, off uint64, bits int) uint64 {
+func getUnsignedBits(s bitSource, off uint64, bits int) uint64 {
 	v := uint64(0)
 	for j := 0; j < bits; j++ {
-		v = v<<1 | getBit(s, off+uint64(j))
+		v = v<<1 | s.bit(off+uint64(j))
 	}
 	return v
 }
 
-func getSignedBits(s string, off uint64, bits int) int64 {
+func getSignedBits(s bitSource, off uint64, bits int) int64 {
 	v := getUnsignedBits(s, off, bits)
 	if bits < 64 && v&(1<<(bits-1)) != 0 {
 		v |= ^uint64(0) << bits
@@ -277,9 +264,6 @@ func cmdBitfield(w *World, sc *SrvConn, a []string, ro bool) resp.Value {
 		if ro {
 			return resp.Err("ERR BITFIELD_RO only supports the GET subcommand")
 		}
-		if bitmapTooBig(w, "BITFIELD", highest) {
-			return errBitOffset()
-		}
 		var wrong bool
 		if en, dirty, wrong = stringForBits(sc, a[1], highest); wrong {
 			return errWrongType()
@@ -288,10 +272,7 @@ func cmdBitfield(w *World, sc *SrvConn, a []string, ro bool) resp.Value {
 	out := resp.Arr()
 	changes := 0
 	for _, o := range ops {
-		cur := ""
-		if en != nil {
-			cur = en.str
-		}
+		cur := en.bits()
 		if o.op == "GET" {
 			if o.signed {
 				out.A = append(out.A, resp.Int(getSignedBits(cur, o.off, o.bits)))
@@ -306,9 +287,9 @@ func cmdBitfield(w *World, sc *SrvConn, a []string, ro bool) resp.Value {
 			continue
 		}
 		out.A = append(out.A, resp.Int(reply))
-		b := []byte(en.str)
-		setBits(b, o.off, o.bits, newbits)
-		en.str = string(b)
+		if changed {
+			en.writeBits(o.off, o.bits, newbits)
+		}
 		if dirty || changed {
 			changes++
 		}
@@ -321,7 +302,7 @@ func cmdBitfield(w *World, sc *SrvConn, a []string, ro bool) resp.Value {
 
 // bitfieldWrite computes one SET or INCRBY: the integer to reply, the bits to store, whether they differ from the
 // current ones, and whether the operation is skipped because of OVERFLOW FAIL.
-func bitfieldWrite(cur string, o bitfieldOp) (reply int64, newbits uint64, changed, failed bool) {
+func bitfieldWrite(cur bitSource, o bitfieldOp) (reply int64, newbits uint64, changed, failed bool) {
 	if o.signed {
 		old := getSignedBits(cur, o.off, o.bits)
 		var nv int64
@@ -381,18 +362,15 @@ func cmdSetbit(w *World, sc *SrvConn, e *Exec, a []string) result {
 	if !ok || on&^1 != 0 {
 		return rv(resp.Err("ERR bit is not an integer or out of range"))
 	}
-	if bitmapTooBig(w, "SETBIT", off) {
-		return rv(errBitOffset())
-	}
 	en, dirty, wrong := stringForBits(sc, a[1], off)
 	if wrong {
 		return rv(errWrongType())
 	}
-	old := getBit(en.str, off)
+	old := en.bits().bit(off)
 	if dirty || old != uint64(on) {
-		b := []byte(en.str)
-		setBits(b, off, 1, uint64(on))
-		en.str = string(b)
+		if old != uint64(on) {
+			en.writeBits(off, 1, uint64(on))
+		}
 		sc.Node.DBs.touch(w, sc, a[1])
 	}
 	return rv(resp.Int(int64(old)))
@@ -410,7 +388,7 @@ func cmdGetbit(w *World, sc *SrvConn, e *Exec, a []string) result {
 	if en.typ != "string" {
 		return rv(errWrongType())
 	}
-	return rv(resp.Int(int64(getBit(en.str, off))))
+	return rv(resp.Int(int64(en.bits().bit(off))))
 }
 
 func cmdBitcount(w *World, sc *SrvConn, e *Exec, a []string) result {
@@ -445,7 +423,7 @@ func cmdBitcount(w *World, sc *SrvConn, e *Exec, a []string) result {
 	if en.typ != "string" {
 		return rv(errWrongType())
 	}
-	tot := int64(len(en.str))
+	tot := int64(en.bits().byteLen())
 	if isBit {
 		tot *= 8
 	}
@@ -472,6 +450,9 @@ func cmdBitcount(w *World, sc *SrvConn, e *Exec, a []string) result {
 	}
 	if !isBit {
 		start, end = start*8, end*8+7
+	}
+	if en.bm != nil {
+		return rv(resp.Int(en.bm.popcount(uint64(start), uint64(end))))
 	}
 	n := int64(0)
 	for p := start; p <= end; p++ {
@@ -561,7 +542,7 @@ func cmdGetex(w *World, sc *SrvConn, e *Exec, a []string) result {
 	if en.typ != "string" {
 		return rv(errWrongType())
 	}
-	val := resp.Bulk(en.str)
+	val := resp.Bulk(en.val(w))
 	switch {
 	case expire && absolute && !at.After(now):
 		d.del(w, sc, a[1])
@@ -620,7 +601,7 @@ func cmdIncrByFloat(w *World, sc *SrvConn, e *Exec, a []string) result {
 	cur, exp := new(big.Float).SetPrec(64), time.Time{}
 	if en != nil {
 		var ok bool
-		if cur, ok = parseLongDouble(en.str); !ok {
+		if cur, ok = parseLongDouble(en.val(w)); !ok {
 			return rv(resp.Err("ERR value is not a valid float"))
 		}
 		exp = en.expireAt
